@@ -1,7 +1,8 @@
+import Huginn.Drv.C05
 import Huginn.Drv.C14
 namespace Huginn.Drv
 
 def allHandlers : List (String × (String → P Verdict)) :=
-  Huginn.Drv.C14.handlers
+  Huginn.Drv.C05.handlers ++ Huginn.Drv.C14.handlers
 
 end Huginn.Drv
